@@ -263,7 +263,7 @@ receiveLoop:
 		otherRecordBuffer = leftRecordBuffer
 	}
 
-	if err := processRecordsUpTo(ctx, minWatermark, true); err != nil {
+	if err := processRecordsUpTo(ctx, minWatermark, false); err != nil {
 		return err
 	}
 
